@@ -21,6 +21,11 @@ CHECKS = {
    "TLC enumerates every opcode of the format table under every field-width combination of the bounded architecture domain with in-range and out-of-range operands, proves the code's intended theorems on the specification and exports the expected result of every row; the harness replays all rows on the real assembler/disassembler and judges the real results (exact width, round trip both ways, misfits rejected), so a wrong bit-slice, padding or missing range check in one opcode under one width combination is found.",
    "Domain: rsize in {4,8,16} (TLC integers are 32 bit, so 32/64-bit immediates are outside the enumerated domain), R 1..3, N/M 0..9, L 0..3, O 1..4, opcode fields 1..7 bits, WordSize 0/natural+k; 79 opcodes in 'ha' mode; shared-object and video-memory opcodes are outside the table. Trusted: TLC, the rendering of a row as assembly text.",
    "DESIGN.md §4 C03", "bmverif"),
+ "C13": ("model_checking",
+   "TLA+ spec BMStack (register-exact transcription of the stack/queue template + nondeterministic protocol-abiding environment) model-checked by TLC against the abstract sequence (refinement, flags, bounded response); every transition of the dumped state graphs replayed on the real WriteHDL() output in the Verilog interpreter; interface traces of real executions validated by TLC against the property level",
+   "For small parameters the reachable transition relation of the real generated circuit is shown equal to the specification's (every transition replayed, registers compared), which transfers TLC's exhaustive verdict over all environment strategies to the real module; larger parameters are driven by random protocol-abiding environments and every clock of every execution is judged by the property-level trace spec on interface signals only.",
+   "Exhaustive: LIFO/FIFO, depth 1..3 (4 thorough), up to 2x2 (3x2 thorough) agents, 1-bit data. Random: depth<=5, <=3x3 agents, data 1..4 bits, 150 clocks. Trusted: TLC, the Verilog interpreter (cross-checked by the zero-mismatch transition replay), NeededBits widths as coded.",
+   "DESIGN.md §4 C13", "bmverif"),
 }
 NOT_APPLICABLE = {
  "C18": "static well-formedness of generated Verilog text (parse/lint judgement): no state, transitions or behaviour for a TLA+ specification to decide; see DESIGN.md §5",
